@@ -58,6 +58,7 @@ type c19 struct {
 	lastSelCoins      []coinset.Coin
 	hugeSet           bool
 	churn             bool
+	giant             bool
 	mutated, selected bool
 }
 
@@ -84,6 +85,10 @@ func (s *c19) Start(r *kit.Rng, cfg map[string]int64) {
 		s.bigSet = true
 		s.hugeSet = true
 		s.maxSteps = r.Range(500, 1000)
+		if r.Chance(1, 3) {
+			s.giant = true // several hundred coins
+			s.maxSteps = r.Range(900, 1300)
+		}
 	}
 	cfg["max_steps"] = int64(s.maxSteps)
 }
@@ -178,7 +183,9 @@ func (s *c19) genSetOp(r *kit.Rng) (kit.Op, bool) {
 		switch {
 		case r.Chance(1, 25):
 			k = 12
-		case len(s.deque) < 70 || (len(s.deque) < 110 && r.Chance(3, 5)):
+		case s.giant && (len(s.deque) < 260 || (len(s.deque) < 300 && r.Chance(3, 5))):
+			k = r.Intn(5)
+		case !s.giant && (len(s.deque) < 70 || (len(s.deque) < 110 && r.Chance(3, 5))):
 			k = r.Intn(5)
 		default:
 			k = 7
@@ -188,7 +195,9 @@ func (s *c19) genSetOp(r *kit.Rng) (kit.Op, bool) {
 	limit := 16
 	if s.bigSet {
 		limit = 24
-		if s.churn {
+		if s.giant {
+			limit = 420
+		} else if s.churn {
 			limit = 200
 		} else if s.hugeSet {
 			limit = 48
@@ -319,13 +328,13 @@ func (s *c19) genSelect(r *kit.Rng) kit.Op {
 func (s *c19) Apply(o kit.Op) *kit.Violation {
 	switch o.K {
 	case "coin":
-		if len(s.pool) >= 200 || o.Arg(0) < 0 || o.Arg(1) < 0 {
+		if len(s.pool) >= 420 || o.Arg(0) < 0 || o.Arg(1) < 0 {
 			return nil
 		}
 		id := len(s.pool)
 		var h chainhash.Hash
 		copy(h[:], o.Data())
-		h[31] = byte(id)
+		h[31], h[30] = byte(id), byte(id>>8)
 		if o.Arg(2) == 1 {
 			// a real SimpleCoin over a real transaction
 			tx := wire.NewMsgTx(1)
@@ -501,8 +510,8 @@ func (s *c19) checkSelect(which int, target int64, maxIn int, minChange, minVA i
 	// place from call to call (what a wallet does with its candidate list):
 	// a selector that remembers a list by its address must not be fooled
 	cur := s.set.Coins()
-	if cap(s.offerBuf) < 256 {
-		s.offerBuf = make([]coinset.Coin, 0, 256)
+	if cap(s.offerBuf) < 512 {
+		s.offerBuf = make([]coinset.Coin, 0, 512)
 	}
 	offered := append(s.offerBuf[:0], cur...)
 	before := append([]coinset.Coin(nil), offered...)
